@@ -239,8 +239,9 @@ def p_rules(rules, deep=True):
         elif t == r.IMPORT_RULE:
             if deep:
                 sh = r.styleSheet
+                # @charset rules of imported sheets (incl. the one inherited from the parent, C08) are not compared
                 out.append(('I', r.href, r.media.mediaText, bool(r.hrefFound), (sh.href or '') if sh else '',
-                            p_rules(sh.cssRules, True) if sh else []))
+                            [x for x in p_rules(sh.cssRules, True) if x[0] != 'C'] if sh else []))
             else:
                 out.append(('I', r.href, r.media.mediaText, False, '', []))
         elif t == r.STYLE_RULE:
